@@ -47,6 +47,55 @@ Proof.
   - unfold glv_sign_abs. cbn [snd]. split; apply Z.mod_pos_bound; exact Hr.
 Qed.
 
+(* ---------- size of the halves: |k1| <= |n11| + |n21|, |k2| <= |n12| + |n22| when det = r ---------- *)
+
+Lemma round_div_err a r : 0 < r -> exists rho, a = r * round_div a r + rho /\ - r < rho < r.
+Proof.
+  intros Hr. unfold round_div.
+  pose proof (Z.quot_rem' a r) as Hq. pose proof (Z.rem_bound_abs a r ltac:(lia)) as Hb.
+  rewrite (Z.abs_eq r) in Hb by lia.
+  destruct (Z.ltb_spec r (Z.rem a r + Z.rem a r)) as [Hup|Hdn].
+  - exists (Z.rem a r - r). split; [lia|]. destruct (Z.abs_spec (Z.rem a r)) as [[? E]|[? E]]; lia.
+  - exists (Z.rem a r). split; [lia|]. destruct (Z.abs_spec (Z.rem a r)) as [[? E]|[? E]]; lia.
+Qed.
+
+Lemma abs_combo_le r p1 p2 x y K : 0 < r -> - r < p1 < r -> - r < p2 < r -> r * K = p1 * x + p2 * y ->
+  Z.abs K <= Z.abs x + Z.abs y.
+Proof.
+  intros Hr H1 H2 HK.
+  assert (Ha : r * Z.abs K <= r * (Z.abs x + Z.abs y)).
+  { replace (r * Z.abs K) with (Z.abs (r * K)) by (rewrite Z.abs_mul, (Z.abs_eq r) by lia; reflexivity).
+    rewrite HK. eapply Z.le_trans; [apply Z.abs_triangle|]. rewrite !Z.abs_mul.
+    assert (Z.abs p1 <= r) by lia. assert (Z.abs p2 <= r) by lia.
+    pose proof (Z.abs_nonneg x). pose proof (Z.abs_nonneg y).
+    assert (Z.abs p1 * Z.abs x <= r * Z.abs x) by (apply Z.mul_le_mono_nonneg_r; lia).
+    assert (Z.abs p2 * Z.abs y <= r * Z.abs y) by (apply Z.mul_le_mono_nonneg_r; lia). lia. }
+  apply Z.mul_le_mono_pos_l in Ha; lia.
+Qed.
+
+(* glv_halves_bound: the rounding error of each beta is below 1, so the halves are bounded by the
+   column sums of the basis -- provided the basis has determinant r *)
+Theorem glv_halves_bound r n11 n12 n21 n22 k : 0 < r -> n11 * n22 - n12 * n21 = r ->
+  let '(k1, k2) := glv_halves r n11 n12 n21 n22 k in
+  Z.abs k1 <= Z.abs n11 + Z.abs n21 /\ Z.abs k2 <= Z.abs n12 + Z.abs n22.
+Proof.
+  intros Hr Hdet. unfold glv_halves.
+  destruct (round_div_err (k * n22) r Hr) as (p1 & E1 & B1).
+  destruct (round_div_err (k * - n12) r Hr) as (p2 & E2 & B2).
+  set (beta1 := round_div (k * n22) r) in *. set (beta2 := round_div (k * - n12) r) in *.
+  split.
+  - apply (abs_combo_le r p1 p2); auto.
+    replace (r * (k - (beta1 * n11 + beta2 * n21)))
+      with (r * k - (r * beta1) * n11 - (r * beta2) * n21) by ring.
+    replace (r * beta1) with (k * n22 - p1) by lia. replace (r * beta2) with (k * - n12 - p2) by lia.
+    rewrite <- Hdet. ring.
+  - apply (abs_combo_le r p1 p2); auto.
+    replace (r * - (beta1 * n12 + beta2 * n22))
+      with (- ((r * beta1) * n12) - (r * beta2) * n22) by ring.
+    replace (r * beta1) with (k * n22 - p1) by lia. replace (r * beta2) with (k * - n12 - p2) by lia.
+    ring.
+Qed.
+
 (* ---------- bit strings with a clear top bit ---------- *)
 
 Lemma to_bits_be_top a : wf a -> 0 <= val a < 2 ^ (64 * Z.of_nat (length a) - 1) ->
@@ -144,4 +193,158 @@ Section Proofs.
     - rewrite (r_zero _ _ _ _ _ _ ops_realise). unfold lin. rewrite !(smul_0 aadd aneg azero), (ag_zero_l _ _ _ G).
       reflexivity.
   Qed.
+  (* the same loop with affine b1, b2 (glv_mul_affine) *)
+  Lemma glv_loop_aff_noskip (b1 b2 : B) b1b2 : phi b1b2 = aadd (phib b1) (phib b2) ->
+    forall pairs res v1 v2, Forall is_bit (map fst pairs) -> Forall is_bit (map snd pairs) ->
+    phi res = lin (phib b1) (phib b2) v1 v2 ->
+    phi (glv_loop_aff Ops b1 b2 b1b2 pairs false res)
+    = lin (phib b1) (phib b2) (bfold v1 (map fst pairs)) (bfold v2 (map snd pairs)).
+  Proof.
+    intros H12. induction pairs as [|[x y] t IH]; intros res v1 v2 Hx Hy Hres; [exact Hres|].
+    cbn [map fst snd] in Hx, Hy. inversion Hx as [|? ? Hx0 Hx']; inversion Hy as [|? ? Hy0 Hy']; subst.
+    cbn [glv_loop_aff andb map fst snd].
+    change (bfold v1 (x :: map fst t)) with (bfold (2 * v1 + x) (map fst t)).
+    change (bfold v2 (y :: map snd t)) with (bfold (2 * v2 + y) (map snd t)).
+    apply IH; [exact Hx'|exact Hy'|].
+    assert (Hd : phi (gdbl Ops res) = lin (phib b1) (phib b2) (2 * v1) (2 * v2)).
+    { rewrite (r_dbl _ _ _ _ _ _ ops_realise), Hres. apply lin_double. }
+    destruct Hx0 as [->| ->]; destruct Hy0 as [->| ->]; cbn [Z.eqb].
+    - rewrite Hd. f_equal; lia.
+    - rewrite (r_addb _ _ _ _ _ _ ops_realise), Hd, lin_add2. f_equal; lia.
+    - rewrite (r_addb _ _ _ _ _ _ ops_realise), Hd, lin_add1. f_equal; lia.
+    - rewrite (r_add _ _ _ _ _ _ ops_realise), Hd, H12, lin_add12. f_equal; lia.
+  Qed.
+
+  Lemma glv_joint_loop_aff_spec (b1 b2 : B) b1b2 xs ys : phi b1b2 = aadd (phib b1) (phib b2) ->
+    Forall is_bit xs -> Forall is_bit ys ->
+    phi (glv_loop_aff Ops b1 b2 b1b2 (combine (0 :: xs) (0 :: ys)) true (gzero Ops))
+    = aadd (smul (bval_be (firstn (length ys) xs)) (phib b1)) (smul (bval_be (firstn (length xs) ys)) (phib b2)).
+  Proof.
+    intros H12 Hx Hy. cbn [combine glv_loop_aff andb Z.eqb].
+    rewrite (glv_loop_aff_noskip b1 b2 b1b2 H12 (combine xs ys) (gzero Ops) 0 0).
+    - rewrite combine_fst_firstn, combine_snd_firstn. reflexivity.
+    - rewrite combine_fst_firstn. apply Forall_firstn. exact Hx.
+    - rewrite combine_snd_firstn. apply Forall_firstn. exact Hy.
+    - rewrite (r_zero _ _ _ _ _ _ ops_realise). unfold lin. rewrite !(smul_0 aadd aneg azero), (ag_zero_l _ _ _ G).
+      reflexivity.
+  Qed.
+
+  (* the premise the skip_zeros logic forces: bit 64N-1 of both returned magnitudes is clear *)
+  Definition glv_top_bits_clear (N : nat) (r n11 n12 n21 n22 k : Z) : Prop :=
+    let '(s1, s2) := glv_decomp r n11 n12 n21 n22 k in
+    snd s1 < 2 ^ (64 * Z.of_nat N - 1) /\ snd s2 < 2 ^ (64 * Z.of_nat N - 1).
+
+  Lemma glv_bits_top N r m : 0 < r <= Wn N -> 0 <= m < r -> m < 2 ^ (64 * Z.of_nat N - 1) ->
+    exists t, glv_bits N m = 0 :: t /\ Forall is_bit t /\ bval_be t = m /\ length t = (64 * N - 1)%nat.
+  Proof.
+    intros Hr Hm Ht. unfold glv_bits.
+    destruct (to_bits_be_top (zlimbs N m)) as (t & E & Bt & V & L).
+    - apply zlimbs_wf.
+    - rewrite zlimbs_val_small, zlimbs_length by lia. lia.
+    - exists t. rewrite zlimbs_val_small, zlimbs_length in * by lia. auto.
+  Qed.
+
+  Lemma glv_recombine r lambda (s1 s2 : bool) m1 m2 k X : smul r X = azero ->
+    (glv_signed (s1, m1) + lambda * glv_signed (s2, m2)) mod r = k mod r ->
+    aadd (smul m1 (if s1 then X else aneg X)) (smul m2 (if s2 then smul lambda X else aneg (smul lambda X)))
+    = smul k X.
+  Proof.
+    intros Ho Hc.
+    assert (E1 : (if s1 then X else aneg X) = smul (if s1 then 1 else -1) X).
+    { destruct s1; [rewrite (smul_1 _ _ _ G); reflexivity|].
+      rewrite (smul_neg _ _ _ G 1), (smul_1 _ _ _ G). reflexivity. }
+    assert (E2 : (if s2 then smul lambda X else aneg (smul lambda X)) = smul (if s2 then lambda else - lambda) X).
+    { destruct s2; [reflexivity|]. rewrite (smul_neg _ _ _ G). reflexivity. }
+    rewrite E1, E2, <- !(smul_mul _ _ _ G), <- (smul_add _ _ _ G).
+    apply (smul_congr _ _ _ G r); [exact Ho|]. rewrite <- Hc. f_equal.
+    unfold glv_signed. cbn [fst snd]. destruct s1, s2; ring.
+  Qed.
+
+  (* glv_mul_projective = k . P on points where the endomorphism acts as lambda and r P = 0 *)
+  Theorem glv_mul_spec endo N r lambda n11 n12 n21 n22 P k :
+    0 < r <= Wn N -> 0 <= k < r ->
+    (n11 + lambda * n12) mod r = 0 -> (n21 + lambda * n22) mod r = 0 ->
+    glv_top_bits_clear N r n11 n12 n21 n22 k ->
+    phi (endo P) = smul lambda (phi P) -> smul r (phi P) = azero ->
+    phi (glv_mul_proj Ops endo N r n11 n12 n21 n22 P k) = smul k (phi P).
+  Proof.
+    intros Hr Hk H1 H2 Htop Hendo Ho. unfold glv_mul_proj, glv_top_bits_clear in *.
+    pose proof (glv_decomposition_spec r lambda n11 n12 n21 n22 k ltac:(lia) H1 H2) as Hd.
+    destruct (glv_decomp r n11 n12 n21 n22 k) as [[s1 m1] [s2 m2]]. cbn [snd] in *.
+    destruct Hd as (Hc & Hm1 & Hm2). destruct Htop as [Ht1 Ht2].
+    destruct (glv_bits_top N r m1 Hr Hm1 Ht1) as (t1 & E1 & B1 & V1 & L1).
+    destruct (glv_bits_top N r m2 Hr Hm2 Ht2) as (t2 & E2 & B2 & V2 & L2).
+    rewrite E1, E2, glv_joint_loop_spec by (auto; apply (r_add _ _ _ _ _ _ ops_realise)).
+    rewrite L2, <- L1, firstn_all, L1, <- L2, firstn_all, V1, V2.
+    replace (phi (if s1 then P else gneg Ops P)) with (if s1 then phi P else aneg (phi P))
+      by (destruct s1; [reflexivity|rewrite (r_neg _ _ _ _ _ _ ops_realise); reflexivity]).
+    replace (phi (if s2 then endo P else gneg Ops (endo P)))
+      with (if s2 then smul lambda (phi P) else aneg (smul lambda (phi P)))
+      by (destruct s2; [|rewrite (r_neg _ _ _ _ _ _ ops_realise)]; rewrite Hendo; reflexivity).
+    apply (glv_recombine r lambda); assumption.
+  Qed.
+
+  (* glv_mul_affine *)
+  Theorem glv_mul_affine_spec endob N r lambda n11 n12 n21 n22 (Q : B) k :
+    0 < r <= Wn N -> 0 <= k < r ->
+    (n11 + lambda * n12) mod r = 0 -> (n21 + lambda * n22) mod r = 0 ->
+    glv_top_bits_clear N r n11 n12 n21 n22 k ->
+    phib (endob Q) = smul lambda (phib Q) -> smul r (phib Q) = azero ->
+    phib (glv_mul_aff Ops endob N r n11 n12 n21 n22 Q k) = smul k (phib Q).
+  Proof.
+    intros Hr Hk H1 H2 Htop Hendo Ho. unfold glv_mul_aff, glv_top_bits_clear in *.
+    pose proof (glv_decomposition_spec r lambda n11 n12 n21 n22 k ltac:(lia) H1 H2) as Hd.
+    destruct (glv_decomp r n11 n12 n21 n22 k) as [[s1 m1] [s2 m2]]. cbn [snd] in *.
+    destruct Hd as (Hc & Hm1 & Hm2). destruct Htop as [Ht1 Ht2].
+    destruct (glv_bits_top N r m1 Hr Hm1 Ht1) as (t1 & E1 & B1 & V1 & L1).
+    destruct (glv_bits_top N r m2 Hr Hm2 Ht2) as (t2 & E2 & B2 & V2 & L2).
+    rewrite (r_tob _ _ _ _ _ _ ops_realise).
+    rewrite E1, E2, glv_joint_loop_aff_spec by (auto; apply (r_addbb _ _ _ _ _ _ ops_realise)).
+    rewrite L2, <- L1, firstn_all, L1, <- L2, firstn_all, V1, V2.
+    replace (phib (if s1 then Q else gnegb Ops Q)) with (if s1 then phib Q else aneg (phib Q))
+      by (destruct s1; [reflexivity|rewrite (r_negb _ _ _ _ _ _ ops_realise); reflexivity]).
+    replace (phib (if s2 then endob Q else gnegb Ops (endob Q)))
+      with (if s2 then smul lambda (phib Q) else aneg (smul lambda (phib Q)))
+      by (destruct s2; [|rewrite (r_negb _ _ _ _ _ _ ops_realise)]; rewrite Hendo; reflexivity).
+    apply (glv_recombine r lambda); assumption.
+  Qed.
+
+  (* the curve-crate override mul_projective = glv_mul o from_sign_and_limbs, on every limb slice
+     (any length, values >= r): = (val limbs) . P *)
+  Theorem glv_override_spec endo N r lambda n11 n12 n21 n22 limbs P :
+    0 < r <= Wn N ->
+    (n11 + lambda * n12) mod r = 0 -> (n21 + lambda * n22) mod r = 0 ->
+    glv_top_bits_clear N r n11 n12 n21 n22 (val limbs mod r) ->
+    phi (endo P) = smul lambda (phi P) -> smul r (phi P) = azero ->
+    phi (mul_bigint_glv Ops endo N r n11 n12 n21 n22 limbs P) = smul (val limbs) (phi P).
+  Proof.
+    intros Hr H1 H2 Htop Hendo Ho. unfold mul_bigint_glv.
+    rewrite (glv_mul_spec endo N r lambda) by (auto; apply Z.mod_pos_bound; lia).
+    apply (smul_mod _ _ _ G); exact Ho.
+  Qed.
+  (* the top-bit premise follows from a numeric fact about the basis alone *)
+  Theorem glv_top_bits_clear_of_basis N r n11 n12 n21 n22 k : 0 < r -> n11 * n22 - n12 * n21 = r ->
+    Z.abs n11 + Z.abs n21 < r -> Z.abs n12 + Z.abs n22 < r ->
+    Z.abs n11 + Z.abs n21 < 2 ^ (64 * Z.of_nat N - 1) -> Z.abs n12 + Z.abs n22 < 2 ^ (64 * Z.of_nat N - 1) ->
+    glv_top_bits_clear N r n11 n12 n21 n22 k.
+  Proof.
+    intros Hr Hdet Hr1 Hr2 Ht1 Ht2. unfold glv_top_bits_clear, glv_decomp.
+    pose proof (glv_halves_bound r n11 n12 n21 n22 k Hr Hdet) as Hb.
+    destruct (glv_halves r n11 n12 n21 n22 k) as [k1 k2]. destruct Hb as [Hb1 Hb2].
+    unfold glv_sign_abs. cbn [snd].
+    rewrite !Z.mod_small by (split; [apply Z.abs_nonneg|lia]). lia.
+  Qed.
 End Proofs.
+
+(* what the boolean check of a configuration buys *)
+Theorem glv_basis_ok_sound N r lambda n11 n12 n21 n22 :
+  glv_basis_ok (N, (r, lambda), (n11, n12), (n21, n22)) = true ->
+  0 < r <= Wn N /\ (n11 + lambda * n12) mod r = 0 /\ (n21 + lambda * n22) mod r = 0 /\
+  forall k, glv_top_bits_clear N r n11 n12 n21 n22 k.
+Proof.
+  unfold glv_basis_ok. rewrite !andb_true_iff.
+  intros ((((((((H1 & H2) & H3) & H4) & H5) & H6) & H7) & H8) & H9).
+  apply Z.ltb_lt in H1, H6, H7, H8, H9. apply Z.leb_le in H2. apply Z.eqb_eq in H3, H4, H5.
+  split; [lia|]. split; [assumption|]. split; [assumption|].
+  intros k. apply glv_top_bits_clear_of_basis; assumption.
+Qed.
